@@ -10,6 +10,28 @@ macro_rules! vmod {
 }
 
 vmod!(vlib);
+vmod!(pm);
+
+/// step-family normalisation usable from every harness module (also under shuttle)
+pub(crate) fn wl_step_family(gate: &str) -> String {
+    let mut out = String::with_capacity(gate.len());
+    let mut prev_digit = false;
+    for ch in gate.chars() {
+        if ch.is_ascii_digit() {
+            if !prev_digit {
+                out.push('*');
+            }
+            prev_digit = true;
+        } else {
+            out.push(ch);
+            prev_digit = false;
+        }
+    }
+    if let Some(rest) = out.strip_prefix("/run-*") {
+        return rest.to_string();
+    }
+    out
+}
 vmod!(c10);
 #[cfg(not(feature = "shuttle"))]
 vmod!(wl);
@@ -19,3 +41,5 @@ vmod!(c01);
 vmod!(c02);
 #[cfg(not(feature = "shuttle"))]
 vmod!(c05);
+#[cfg(not(feature = "shuttle"))]
+vmod!(c06);
